@@ -44,7 +44,9 @@ Fixpoint popcount_pos (p : positive) : Z := match p with xH => 1 | xO q => popco
 Definition count_ones (a : Z) : Z := match a with Zpos p => popcount_pos p | _ => 0 end.
 
 (* slices, arrays and tables: an index out of range panics *)
-Definition idx {A} (l : list A) (i : Z) : option A := if i <? 0 then None else nth_error l (Z.to_nat i).
+(* the bound is tested before the index is converted: the extracted code must not build a huge unary number *)
+Definition idx {A} (l : list A) (i : Z) : option A :=
+  if (i <? 0) || (Z.of_nat (length l) <=? i) then None else nth_error l (Z.to_nat i).
 (* a write through a raw pointer at a constant offset of an output buffer *)
 Fixpoint upd_nat (l : list Z) (i : nat) (v : Z) : list Z :=
   match l, i with
